@@ -276,8 +276,7 @@ def _shadows(earlier: ChoiceChoice, literal: ChoiceLiteral) -> bool:
     """
     match earlier:
         case ChoiceRange(start, end):
-            lo, hi = sorted((start, end))
-            return any(lo <= ch <= hi for ch in _first_chars(literal))
+            return any(start <= ch <= end for ch in _first_chars(literal))
         case ChoiceLiteral(value=val, case=case) if len(val) == 1:
             chars = {val, val.lower(), val.upper()} if case is ChoiceCase.INSENSITIVE else {val}
             return bool(chars & _first_chars(literal))
@@ -332,7 +331,7 @@ def _optimize_char_class(singles: list[str], ranges: list[tuple[str, str]]) -> s
     for start, end in ranges:
         s_cp, e_cp = ord(start), ord(end)
         if s_cp > e_cp:
-            s_cp, e_cp = e_cp, s_cp
+            continue  # An empty range matches nothing.
         norm_ranges.append((s_cp, e_cp))
 
     # Merge ranges
@@ -356,4 +355,6 @@ def _optimize_char_class(singles: list[str], ranges: list[tuple[str, str]]) -> s
             parts_out.append(re.escape(chr(s)))
         else:
             parts_out.append(f"{re.escape(chr(s))}-{re.escape(chr(e))}")
+    if not parts_out:
+        return "(?!)"
     return "[" + "".join(parts_out) + "]"
